@@ -222,3 +222,8 @@ def run(ctx):
                     bad = [im["trait"] for im in P.impls if im.get("self_adt") == adt and im.get("derived") and im.get("trait", "").split("::")[-1] in ("Debug", "Serialize")]
                     ctx.check("no-derived-formatter", adt.split("::")[-1] + "." + f["name"], not bad, "no derived formatter on a type holding secrets",
                               "%s holds %s and derives %s" % (adt, f["ty"], bad))
+
+
+def fixture(fctx):
+    import fixture_checks
+    return fixture_checks.taint_alive(fctx, make_taint, sinks_of)
